@@ -473,3 +473,25 @@ crate::verif_harness! {
         core::mem::forget(got);
     }
 }
+
+// ------------------------------------------------------------------------------------------------
+// The string leaves again with the text of error messages cut away (`core::fmt::write` -> writes nothing):
+// `de::Error::custom(FromHexError)` renders its message with `to_string()` (char `Debug`, integer `Display`),
+// which dominated the cost of every query that can reach an error path.
+macro_rules! nofmt_harness {
+    ($($name:ident = $u:expr, $call:expr;)*) => {$(
+        crate::verif_harness_nofmt! { #[kani::unwind($u)] fn $name() { $call } }
+    )*};
+}
+nofmt_harness! {
+    c13n_bytes_2 = 8, check_bytes_field::<2>(); c13n_bytes_3 = 9, check_bytes_field::<3>();
+    c13n_bytes_4 = 10, check_bytes_field::<4>(); c13n_bytes_6 = 12, check_bytes_field::<6>();
+    c13n_bytes_8 = 14, check_bytes_field::<8>();
+    c13n_numstr_1 = 7, check_number_string::<1>(); c13n_numstr_2 = 8, check_number_string::<2>();
+    c13n_numstr_3 = 9, check_number_string::<3>(); c13n_numstr_4 = 10, check_number_string::<4>();
+    c13n_numstr_6 = 12, check_number_string::<6>();
+    c13n_slot_31 = 36, check_bytearray::<32, 31>(); c13n_slot_32 = 36, check_bytearray::<32, 32>();
+    c13n_slot_33 = 37, check_bytearray::<32, 33>();
+    c13n_address_19 = 25, check_address::<19>(); c13n_address_20 = 25, check_address::<20>();
+    c13n_address_21 = 25, check_address::<21>();
+}
